@@ -21,6 +21,9 @@ Classification:
                       and nothing else to it; From<RuntimeError> keeps Bug as Bug and Storage as Storage;
                       instruction_result() is Some exactly for PanicInstruction; run_program turns an error with
                       instruction_result() into a panic receipt + Revert state and returns other errors.
+  RESERVED-slots      ReceiptsCtx::push accepts only ScriptResult at len == MAX-1 and only ScriptResult|Panic at
+                      len == MAX-2: the precondition of `append_panic_receipt(..).expect("cannot fail")` — the one
+                      deliberate host-panic site on the program-error path — for every program.
   TAB-bug-sites       the construction sites of Bug (internal-bug errors) are the reviewed table
                       tables/C29_bug_sites.json: (function, variant, controlling guard / failing source). A new
                       site, or a site whose guard changed, is reported (fail closed: each listed site was read and
@@ -129,6 +132,7 @@ def run(F, rep, tier, allfacts):
     rep.rule("TAB-default-positive", "default schedule: accessor -> same-named field of the default version; every default cost >= 1")
     rep.rule("CLASS-errors", "Recoverable -> PanicInstruction only; Bug stays Bug; run_program: instruction_result ? panic receipt : propagate")
     rep.rule("TAB-bug-sites", "Bug construction sites = reviewed table (function, variant, guard)")
+    rep.rule("RESERVED-slots", "the last two receipt slots accept only ScriptResult / Panic+ScriptResult, so append_panic_receipt's expect() is unreachable")
 
     # ---------------- loops
     EXEC = IMPL + r"execute$"
@@ -364,6 +368,18 @@ def run(F, rep, tier, allfacts):
                 break
     rep.check(okr, "CLASS-errors", "run_program:panic->receipt;other->Err", "%s:%s" % (f["file"], f["line"]),
               "run_program must append a panic receipt when the error has an instruction_result and return the error otherwise")
+
+    # ---------------- the one deliberate expect() on the panic path
+    from props import C28
+    C28.reserved_slot_variants(F, rep, "RESERVED-slots")
+    n, f = F.find(r"::append_panic_receipt$", ["fuel_vm"], one=True)
+    rep.saw(n)
+    ex = [callee_name(c) for i, c, *_ in calls(f) if callee_matches(c, r"::(unwrap|expect)$")]
+    pu = [callee_name(c) for i, c, *_ in calls(f) if callee_matches(c, r"ReceiptsCtx::push$")]
+    rep.check(len(pu) == 1 and len(ex) <= 1, "RESERVED-slots", "append_panic_receipt:single-push", "%s:%s" % (f["file"], f["line"]),
+              "append_panic_receipt must push exactly one (Panic) receipt; pushes %s, unwrap/expect %s" % (pu, ex))
+    mk = {rv[2] for n2, f2 in F.find(r"^fuel_tx::receipt::Receipt::panic$", ["fuel_tx"]) for i, j, p, rv, line in assignments(f2) if rv[0] == "agg" and rv[1].endswith("::Receipt")}
+    rep.check(mk == {"Panic"}, "RESERVED-slots", "Receipt::panic-builds-Panic", None, "Receipt::panic builds %s" % sorted(mk))
 
     # ---------------- bug sites
     sites = bug_sites(F, cg)
